@@ -78,6 +78,7 @@ const STAGES: &[(&str, StageFn)] = &[
     ("c14.unchecked", c14::unchecked),
     ("c15.relations", c15::relations),
     ("c15.refusals", c15::refusals),
+    ("c15.env_paths", c15::env_paths),
     ("c15.threads_manyrecs", c15::threads_manyrecs),
     ("c16.cli", c16::cli),
     ("c16.lib", c16::lib),
